@@ -132,6 +132,54 @@ def monitor(nsides, side, msg, got, quiet):
     return None
 
 
+def run_advance(rp, cls_name, fwd, prof, state, nthings=1):
+    """the real <cls>.advance with publish() captured: the messages it puts on the state pubsub"""
+    import radical.pilot.utils.component as rpuc
+    cls = getattr(rpuc, cls_name)
+    comp = object.__new__(cls)
+    comp._log, comp._prof = rpload.NullLog(), rpload.NullLog()
+    comp._outputs = {}
+    sent = []
+    comp.publish = lambda pubsub, msg, topic=None: sent.append((pubsub, copy.deepcopy(msg)))
+    things = [{'uid': 'task.%04d' % i, 'type': 'task', 'state': 'NEW'} for i in range(nthings)]
+    kw = {}
+    if fwd is not None: kw['fwd'] = fwd
+    if prof is not None: kw['prof'] = prof
+    comp.advance(things, state, publish=True, push=False, **kw)
+    return sent
+
+
+def advance_cases(rp, ctx, ops, impl):
+    """state advances on either side: flag on the published update (vs model) and where it ends up"""
+    from radical.pilot import constants as rpc
+    from radical.pilot import states as rps
+    body = 0
+    for cls_name, side_kind in (('ClientComponent', 0), ('AgentComponent', 1), ('BaseComponent', 1)):
+        for fwd in (None, True, False):
+            for prof in (None, True, False):
+                for state in (rps.AGENT_EXECUTING, rps.DONE, rps.FAILED):
+                    body += 1
+                    sent = run_advance(rp, cls_name, fwd, prof, state, nthings=1 + body % 2)
+                    op = {'op': 'advance', 'cls': cls_name, 'fwd': fwd, 'body': body}
+                    ok_shape = (len(sent) == 1 and sent[0][0] == rpc.STATE_PUBSUB and sent[0][1].get('cmd') == 'update'
+                                and 'origin' not in sent[0][1])
+                    flag = sent[0][1].get('fwd') if sent else None
+                    ops.append(op)
+                    impl.append({'origin': None, 'fwd': flag, 'body': body} if ok_shape else 'unexpected: %r' % (sent,))
+                    ctx.case({'advance': cls_name, 'fwd': fwd, 'prof': prof, 'state': state}, nontrivial=flag is True)
+                    # end to end: the update on the state channel of a 3-sided network
+                    want_fwd = fwd if fwd is not None else (cls_name == 'AgentComponent')
+                    side = side_kind
+                    msg = {'origin': None, 'fwd': flag, 'body': body}
+                    got, quiet, hops = run_publish(rp, 3, side, msg, 1)
+                    bad = monitor(3, side, {'origin': None, 'fwd': want_fwd, 'body': body}, got, quiet)
+                    if bad:
+                        ctx.fail('advance:' + bad[0], '%s.advance(fwd=%s, prof=%s, state=%s) published fwd=%r: %s'
+                                 % (cls_name, fwd, prof, state, flag, bad[1]),
+                                 {'advance': {'cls': cls_name, 'fwd': fwd, 'prof': prof, 'state': state, 'side': side}},
+                                 observed={'flag': flag, 'deliveries': {str(k): len(v) for k, v in got.items()}})
+
+
 def run(ctx):
     rp = rpload.load()
     import radical.utils as ru
@@ -168,6 +216,11 @@ def run(ctx):
     finally:
         ru.zmq.Publisher, ru.zmq.Subscriber = old
     common.compare(ctx, 'bridge', ops, impl, what='pubsub_fwd closures exhaustive (module x direction x origin x fwd)')
+
+    # -- state advances ------------------------------------------------------------
+    ops, impl = [], []
+    advance_cases(rp, ctx, ops, impl)
+    common.compare(ctx, 'bridge', ops, impl, what='real ClientComponent / AgentComponent / BaseComponent.advance: flag on the published update (class x fwd x prof x state)')
 
     # -- topologies --------------------------------------------------------------
     ops, impl = [], []
@@ -217,7 +270,7 @@ def run(ctx):
     common.compare(ctx, 'bridge', ops, impl, what='delivery per side in an in-memory network of real forwarders')
     ctx.exhaustive = True
     ctx.rule = ('exhaustive: all marker combinations (origin in {absent, each of 3 modules} x fwd in {absent, False, True}) for both '
-                'forwarder directions and 3 modules; all topologies of 1 client + 0..%d pilots x every originating side x '
+                'forwarder directions and 3 modules; every advance() class x fwd argument x prof argument x 3 states; all topologies of 1 client + 0..%d pilots x every originating side x '
                 'origin marker x fwd x {control, state} channel; plus random message sequences; non-trivial = fwd flag set' % (nmax - 1))
     ctx.assume += ['ZMQ transport is a lossless bus delivering a copy to every subscriber (proxy.py creates plain PubSub bridges)',
                    'every side has a distinct module name (client / pilot uid); names containing each other are included (pilot.1, pilot.10, ...)']
@@ -229,6 +282,15 @@ def replay(ctx, data):
     i = data['input']
     if 'msgs' in i:
         return False
+    if 'advance' in i:
+        a = i['advance']
+        sent = run_advance(rp, a['cls'], a['fwd'], a['prof'], a['state'])
+        flag = sent[0][1].get('fwd') if sent else None
+        want = a['fwd'] if a['fwd'] is not None else (a['cls'] == 'AgentComponent')
+        got, quiet, hops = run_publish(rp, 3, a['side'], {'origin': None, 'fwd': flag, 'body': 1}, 1)
+        bad = monitor(3, a['side'], {'origin': None, 'fwd': want, 'body': 1}, got, quiet)
+        print('observed: published fwd=%r' % flag, {k: len(v) for k, v in got.items()}, bad)
+        return not bad
     got, quiet, hops = run_publish(rp, i['nsides'], i['side'], i['msg'], i['channel'])
     bad = monitor(i['nsides'], i['side'], i['msg'], got, quiet)
     print('observed:', {k: len(v) for k, v in got.items()}, 'hops', hops, bad)
